@@ -393,6 +393,23 @@ def run(ctx):
     n0, n1 = len(pre), len(pre) + len(reqs)
     n2 = n1 + len(traces)
     n3 = n2 + len(slines)
+
+    def differs(lines):
+        """indices where the real handlers' answers differ from the model's, compared as the correspondence below does"""
+        out = []
+        sreq = set(n2 + j for j, (qi, si) in enumerate(sindex) if si is not None and "adv" not in seqs[qi]["steps"][si])
+        for i, (a, m) in enumerate(zip(lines, model)):
+            if i >= n3 and a == "slow":
+                continue
+            if n0 <= i < n1 or i in sreq:
+                cls, effs = canon_impl(a)
+                a = (cls + " " + " ".join(effs) if effs else cls + " ").strip()
+                m = canon_line(m)
+            if a.strip() != m.strip():
+                out.append(i)
+        return out
+    impl = c.settle_by(ctx, "handlers + IsAdminUser/admincache vs KM.Admin", ops, impl, differs,
+                       lambda: c.run_harness(ctx, "cmd/keymasterd", "C08", ops, tag="again-"))
     # overlapping calls: a history in which a parked question outlived the LDAP client's patience (overloaded
     # machine) says nothing about the property; a fixture that does not start is a harness failure
     conc_skipped = 0
